@@ -1,7 +1,7 @@
 (** C07 - correspondence (model vs linfa-nn) and property oracle, evaluated by vm_compute with the
     binary64 instance (Rust f64) or the binary32 instance (Rust f32). *)
 From Coq Require Import List NArith ZArith QArith Bool Floats Arith.
-From LinfaVerif Require Export Common.Num Common.Run Common.B32 Common.QF C07.Model.
+From LinfaVerif Require Export Common.Num Common.Run Common.B32 Common.QF C07.Model C07.KdModel.
 Import ListNotations.
 
 (** an answer of the implementation: rows as (position, coordinates); coordinates are [None] when
@@ -9,9 +9,14 @@ Import ListNotations.
 Inductive outcome := ROk (rows : list N) (coords : list (list float)) | RErr | RPanic.
 (* [coords = []] : verified by the harness; otherwise one coordinate vector per returned row *)
 
-Record knn_obs := KO { ko_k : N; ko_lin : outcome; ko_kd : outcome; ko_ball : outcome }.
+(* [ko_raw] / [ro_raw]: the raw answer of the external crate - kdtree::KdTree::nearest(q, k, rdistance) /
+   ::within(q, dist_to_rdist(r), rdistance) on a tree built like KdTreeIndex::new builds it - as
+   (distances, row positions); None = not observed (malformed query, the crate refused) *)
+Record knn_obs := KO { ko_k : N; ko_lin : outcome; ko_kd : outcome; ko_ball : outcome;
+                       ko_raw : option (list float * list N) }.
 Record rng_obs := RO { ro_r : float; ro_rr : float (* Rust dist_to_rdist(r) *);
-                       ro_lin : outcome; ro_kd : outcome; ro_ball : outcome }.
+                       ro_lin : outcome; ro_kd : outcome; ro_ball : outcome;
+                       ro_raw : option (list float * list N) }.
 Record query := QR {
   q_pt : list float;
   q_rd : list float;      (* Rust rdistance(q, row i) for every row (empty for a malformed query) *)
@@ -147,6 +152,34 @@ Definition corr_rng (ro : rng_obs) : N :=
       | ROk _ _, None => 0
       | _, _ => 128 end)
    + flag (beq (to_r o m r) (cv (ro_rr ro))) 64)%N.
+(* the k-d tree wrapper: the raw answer of the crate keeps the contract the wrapper theorems assume
+   (512), and the wrapper model applied to it gives the rows KdTreeIndex returned, in order (256) *)
+Definition raw_of (raw : list float * list N) : list (F * @ipt F) :=
+  combine (map cv (fst raw)) (map (fun i => (nth (N.to_nat i) X [], i)) (snd raw)).
+Definition kd_contract_knn (ko : knn_obs) : N :=
+  match ko_raw ko with
+  | Some raw => flag (nearest_obs_ok o beq dq (N.to_nat (ko_k ko)) X (raw_of raw)
+                      && Nat.eqb (length (fst raw)) (length (snd raw))) 512
+  | None => 0%N
+  end.
+Definition kd_contract_rng (ro : rng_obs) : N :=
+  match ro_raw ro with
+  | Some raw => flag (within_obs_ok o beq dq (rr_of ro) X (raw_of raw)
+                      && Nat.eqb (length (fst raw)) (length (snd raw))) 512
+  | None => 0%N
+  end.
+Definition kd_corr_knn (ko : knn_obs) : N :=
+  match ko_raw ko, ko_kd ko with
+  | Some raw, ROk l _ => flag (list_eqb N.eqb (map snd (kd_knn (fun _ _ => raw_of raw) q (N.to_nat (ko_k ko)))) l) 256
+  | Some _, _ => 256%N
+  | None, _ => 0%N
+  end.
+Definition kd_corr_rng (ro : rng_obs) : N :=
+  match ro_raw ro, ro_kd ro with
+  | Some raw, ROk l _ => flag (list_eqb N.eqb (map snd (kd_range o (fun _ _ => raw_of raw) m q (cv (ro_r ro)))) l) 256
+  | Some _, _ => 256%N
+  | None, _ => 0%N
+  end.
 (* the metric itself: Rust's rdistance / distance tables against the model's *)
 Definition corr_metric : N :=
   flag (list_eqb beq tab (map cv (q_rd qr))
@@ -156,8 +189,9 @@ Definition corr_metric : N :=
            end) 64.
 
 Definition run_wellformed : N * N :=
-    ((if lp then 0%N
-      else lor_list (corr_metric :: map corr_knn (q_knn qr) ++ map corr_rng (q_rng qr))),
+    (lor_list ((if lp then [] else corr_metric :: map corr_knn (q_knn qr) ++ map corr_rng (q_rng qr)
+                                     ++ map kd_corr_knn (q_knn qr) ++ map kd_corr_rng (q_rng qr))
+               ++ map kd_contract_knn (q_knn qr) ++ map kd_contract_rng (q_rng qr)),
      lor_list (map oracle_knn (q_knn qr) ++ map oracle_rng (q_rng qr))).
 End WithTab.
 
